@@ -19,6 +19,10 @@ pub struct Cfg {
     pub multi_examples: bool,
     /// allow two status-less contents with different media in one range (needs the C02 `default` fix)
     pub allow_default_multi_media: bool,
+    /// number of identifier names in the pool (smaller = more shadowing)
+    pub pool: usize,
+    /// rarely generate numeric statuses outside 100..=599 (the located error "invalid literal" is expected)
+    pub invalid_status: bool,
 }
 
 impl Default for Cfg {
@@ -34,6 +38,8 @@ impl Default for Cfg {
             shadowing: true,
             multi_examples: true,
             allow_default_multi_media: true,
+            pool: 12,
+            invalid_status: false,
         }
     }
 }
@@ -75,7 +81,7 @@ pub struct Gen<'r> {
 }
 
 const NAMES: [&str; 12] = ["a", "b", "c", "x", "y", "f", "g", "id", "item", "q", "node", "v"];
-const REF_NAMES: [&str; 8] = ["@r", "@s", "@t", "@obj", "@item", "@n1", "@ref-a", "@x"];
+const REF_NAMES: [&str; 12] = ["@r", "@s", "@t", "@obj", "@item", "@n1", "@ref-a", "@x", "@true", "@1e3", "@null", "@123"];
 const PROP_NAMES: [&str; 14] = [
     "id", "name", "n", "next", "items", "a", "b", "true", "null", "123", "x-y", "$v", "@at", "self",
 ];
@@ -177,7 +183,7 @@ impl<'r> Gen<'r> {
     fn fresh_name(&mut self, taken: &dyn Fn(&str) -> bool) -> String {
         for _ in 0..30 {
             let n = if self.cfg.shadowing {
-                (*self.rng.pick(&NAMES)).to_owned()
+                (*self.rng.pick(&NAMES[..self.cfg.pool.clamp(3, NAMES.len())])).to_owned()
             } else {
                 format!("n{}", self.rng.below(1000))
             };
@@ -772,7 +778,11 @@ impl<'r> Gen<'r> {
                     } else if self.rng.chance(1, 3) {
                         E::LitStatus(self.rng.range(1, 5) as u8)
                     } else {
-                        E::LitNum(*self.rng.pick(&[200u64, 201, 204, 301, 400, 404, 418, 500, 599, 100]))
+                        if self.cfg.invalid_status && self.rng.chance(1, 40) {
+                            E::LitNum(*self.rng.pick(&[0u64, 99, 600, 999, 65535, 65536, 4294967296, u64::MAX]))
+                        } else {
+                            E::LitNum(*self.rng.pick(&[200u64, 201, 204, 301, 400, 404, 418, 500, 599, 100]))
+                        }
                     }
                 }
                 MetaK::Media => {
